@@ -22,7 +22,7 @@ from props import c05_gen
 
 common.repo_on_path()
 
-DEADLINE = 5.0
+DEADLINE = 20.0
 
 
 class RealDaemon:
@@ -87,12 +87,12 @@ class RealDaemon:
     def proxy(self):
         from Pyro5 import client
         p = client.Proxy(self.uri())
-        p._pyroTimeout = 3.0
+        p._pyroTimeout = 20.0
         return p
 
     def raw(self):
         s = socket.socket(socket.AF_UNIX, socket.SOCK_STREAM)
-        s.settimeout(3.0)
+        s.settimeout(20.0)
         s.connect(self.path)
         return s
 
